@@ -875,16 +875,17 @@ def _raw_generate(rng, tier):
             c['_tags'] = []
             yield c
     # directed random: majority-judgment ties (few grades, full ballots), equal-size and unequal-size
-    for _ in range(500 if q else 15000):
-        m = rng.randint(2, 4)
+    for _ in range(2500 if q else 15000):
+        m = rng.randint(2, 5)
         full = rng.random() < 0.6
+        gr = rng.choice([[1, 2, 2, 3], [0, 1, 2], [1, 2], [0, 1, 2, 3, 4, 5]])
         votes, seen = [], set()
-        for _ in range(rng.randint(2, 4)):
+        for _ in range(rng.randint(2, 5)):
             cs = list(range(m)) if full or rng.random() < 0.5 else sorted(rng.sample(range(m), rng.randint(1, m)))
-            b = tuple((c, str(rng.choice([1, 2, 2, 3]))) for c in cs)
+            b = tuple((c, str(rng.choice(gr))) for c in cs)
             if b not in seen:
                 seen.add(b)
-                votes.append([[list(x) for x in b], rng.randint(1, 3)])
+                votes.append([[list(x) for x in b], rng.randint(1, 4)])
         yield {'op': 'mj', 'votes': votes, 'n': rng.randint(1, m), 'tie_breaking': rng.choice(['default', 'default', 'plus']),
                'unscored': rng.choice([None, None, '0']), 'min_count': 0, 'truncation': '0', 'bottom': '0', '_tags': ['mj_directed']}
     if not q:
